@@ -15,6 +15,14 @@ def workflow(rng, i):
     for p in paths:
         sp.files[p] = "content of %s\n" % p
     s = sp.src("src", paths)
+    if i % 4 == 3:
+        # sibling outputs of one task whose records differ (one of them is tagged), both ancestors of one file
+        a = sp.proc(t3.Proc("w", kind="cattok", ins=[("a", [(s, "out")])], pars=[("q", ("V", ["p%d" % j for j in range(L)]))],
+                            outs=[("l", "{i:a}.l.{p:q}"), ("r", "{i:a}.r.{p:q}")], sleep="sleep 0.01"))
+        tg = sp.raw("COMP maptags %s %s %d %s" % (hx("tagger"), hx("side"), a, hx("l")))
+        g = sp.proc(t3.Proc("g", kind="cattok", ins=[("a", [(tg, "out")]), ("b", [(a, "r")])], outs=[("o", "{i:a}.g")]))
+        z = sp.proc(t3.Proc("z", kind="cat", ins=[("x", [(g, "o")])], outs=[("o", "{i:x}.z")]))
+        return sp, [a, g, z]
     a = sp.proc(t3.Proc("w", kind="cattok", ins=[("a", [(s, "out")])], pars=[("q", ("V", ["p%d" % j for j in range(L)]))], outs=[("o", "{i:a}.w.{p:q}")], sleep="sleep 0.01"))
     if i % 2 == 0:
         tg = sp.raw("COMP maptags %s %s %d %s" % (hx("tagger"), hx("grp"), a, hx("o")))
